@@ -178,6 +178,115 @@ static int eff_have_key;
 static const jwk_item_t *eff_key;
 static jwt_alg_t eff_alg;
 
+
+/* ------------------------------------------------------------------ C04: claim policy */
+#ifdef CLAIMS_SETUP
+#ifndef KOPS
+#define KOPS 2
+#endif
+#define CLEN 3                       /* expected iss/sub/aud values: every ASCII string <= CLEN bytes */
+struct ref_policy {
+	int exp_on, nbf_on;
+	long exp_lw, nbf_lw;
+	int str_on[3];               /* iss, sub, aud */
+	char str[3][CLEN + 1];
+};
+static struct ref_policy pol;
+static const jwt_claims_t str_claims[3] = { JWT_CLAIM_ISS, JWT_CLAIM_SUB, JWT_CLAIM_AUD };
+
+/* K symbolic configuration calls on the real checker, mirrored on the reference policy:
+ * "the policy in force is always that of the most recent configuration calls" */
+static void claims_setup(jwt_checker_t *chk)
+{
+	unsigned k, i;
+
+	/* documented defaults after jwt_checker_new(): exp and nbf checked, zero leeway, no strings */
+	pol.exp_on = pol.nbf_on = 1;
+	pol.exp_lw = pol.nbf_lw = 0;
+	for (k = 0; k < KOPS; k++) {
+		unsigned op = nondet_uint(), which = nondet_uint();
+		__CPROVER_assume(op < 3 && which < 3);
+		if (op == 0) {                           /* jwt_checker_claim_set */
+			char val[CLEN + 1];
+			int r;
+			for (i = 0; i < CLEN; i++) {
+				val[i] = nondet_char();
+				__CPROVER_assume(val[i] >= 0);   /* ASCII: jansson refuses invalid UTF-8 */
+			}
+			val[CLEN] = '\0';
+			r = jwt_checker_claim_set(chk, str_claims[which], val);
+			PROP(r == 0, "C04: claim_set of a valid value succeeds");
+			pol.str_on[which] = 1;
+			for (i = 0; i <= CLEN; i++)
+				pol.str[which][i] = val[i];
+			for (i = 0; i < CLEN; i++)             /* C-string semantics: cut at first NUL */
+				if (pol.str[which][i] == '\0') {
+					unsigned q;
+					for (q = i; q <= CLEN; q++)
+						pol.str[which][q] = '\0';
+					break;
+				}
+		} else if (op == 1) {                    /* jwt_checker_claim_del */
+			jwt_checker_claim_del(chk, str_claims[which]);
+			pol.str_on[which] = 0;
+		} else {                                 /* jwt_checker_time_leeway */
+			long secs = nondet_long();
+			int r;
+			__CPROVER_assume(secs >= -(1L << 40) && secs <= (1L << 40));
+			r = jwt_checker_time_leeway(chk, which == 0 ? JWT_CLAIM_EXP : JWT_CLAIM_NBF, secs);
+			PROP(r == 0, "C04: time_leeway on exp/nbf succeeds");
+			if (which == 0) {
+				pol.exp_on = secs >= 0;
+				pol.exp_lw = secs;
+			} else {
+				pol.nbf_on = secs >= 0;
+				pol.nbf_lw = secs;
+			}
+		}
+	}
+	for (k = 0; k < 3; k++) {
+		const char *g = jwt_checker_claim_get(chk, str_claims[k]);
+		PROP((g != NULL) == (pol.str_on[k] != 0), "C04: claim_get reports whether an expectation is set");
+		if (g && pol.str_on[k])
+			PROP(strcmp(g, pol.str[k]) == 0, "C04: claim_get returns the most recent expectation");
+	}
+}
+
+/* expected verdict of the claim checks, in 128-bit arithmetic */
+static int ref_claims_ok(void)
+{
+	unsigned k, i;
+	int obj = ps.called && !ps.is_null && ps.type == JSON_OBJECT;
+
+	if (pol.exp_on && obj && ps.m[P_EXP].present) {
+		if (ps.m[P_EXP].type != JSON_INTEGER)
+			return 0;
+		if (!((__int128)ps.m[P_EXP].ival > (__int128)vf_now - (__int128)pol.exp_lw))
+			return 0;
+	}
+	if (pol.nbf_on && obj && ps.m[P_NBF].present) {
+		if (ps.m[P_NBF].type != JSON_INTEGER)
+			return 0;
+		if (!((__int128)ps.m[P_NBF].ival <= (__int128)vf_now + (__int128)pol.nbf_lw))
+			return 0;
+	}
+	for (k = 0; k < 3; k++) {
+		if (!pol.str_on[k])
+			continue;
+		if (!obj || !ps.m[P_ISS + k].present || ps.m[P_ISS + k].type != JSON_STRING)
+			return 0;
+		for (i = 0; i <= VJ_SLEN; i++) {
+			char e = i <= CLEN ? pol.str[k][i] : '\0';
+			if (ps.m[P_ISS + k].s[i] != e)
+				return 0;
+			if (!e)
+				break;
+		}
+	}
+	return 1;
+}
+#endif
+
 int main(void)
 {
 	jwt_checker_t *chk;
@@ -391,6 +500,27 @@ int main(void)
 		REACH(v == 0 && !eff_have_key, "v == 0 && !eff_have_key");
 		REACH(v == 0 && eff_have_key, "v == 0 && eff_have_key");
 		REACH(v != 0 && !eff_have_key && sig_empty && hdr_ok, "v != 0 && !eff_have_key && sig_empty && hdr_ok");
+#endif
+
+#ifdef PROP_C04
+		{
+			int ok = ref_claims_ok();
+			int wellformed = ndots >= 2 && hdr_ok && alg_is_str && hdr_alg < JWT_ALG_INVAL && ps.called && !ps.is_null;
+			if (v == 0)
+				PROP(ok, "C04: an accepted token satisfies every configured claim check");
+			if (!ok)
+				PROP(pv_verify_calls + pv_hmac_calls + pv_pem_calls == 0,
+				     "C04: claims are evaluated before any signature work");
+			/* unsigned tokens on a keyless checker: nothing but the claims can reject */
+			if (wellformed && !eff_have_key && eff_alg == JWT_ALG_NONE && hdr_alg == JWT_ALG_NONE && sig_empty && !have_cb)
+				PROP((v == 0) == ok, "C04: unsigned token accepted exactly when the claim checks pass");
+			REACH(v == 0 && pol.exp_on && ps.m[P_EXP].present && ps.m[P_EXP].ival == vf_now - pol.exp_lw + 1, "exp accepted at the boundary second");
+			REACH(v != 0 && wellformed && pol.exp_on && ps.m[P_EXP].present && ps.m[P_EXP].type == JSON_INTEGER && ps.m[P_EXP].ival == vf_now - pol.exp_lw, "exp rejected at the boundary second");
+			REACH(v == 0 && pol.nbf_on && ps.m[P_NBF].present && ps.m[P_NBF].ival == vf_now + pol.nbf_lw, "nbf accepted at the boundary second");
+			REACH(v == 0 && pol.str_on[0] && pol.str_on[2], "accepted with iss and aud expectations");
+			REACH(v == 0 && !pol.exp_on && ps.m[P_EXP].present && ps.m[P_EXP].type == JSON_INTEGER && ps.m[P_EXP].ival < vf_now, "expired token accepted with exp checking off");
+			REACH(v == 0 && eff_have_key && pol.str_on[1], "signed token accepted with sub expectation");
+		}
 #endif
 
 #ifdef PROP_C06
